@@ -647,7 +647,7 @@ func c10JSON(res *graphql.Result) (interface{}, error) {
 
 func genC10(tier string, seed uint64, n int, e *Emitter) {
 	if n == 0 {
-		n = 64
+		n = 48
 		if tier == "thorough" {
 			n = 2500
 		}
